@@ -127,7 +127,7 @@ def handle : Handler
       else none
   | "mpn_jacobi_2", [.vec a, .vec b, .num s] =>
       if a.length = 2 ∧ b.length = 2 ∧ val b % 2 = 1 ∧ (0 ≤ s ∧ s ≤ 1) then
-        some [num (jacobi_n (val a) (val b) s.toNat)]
+        some (chk (jacobi_2 (a.getD 0 0) (a.getD 1 0) (b.getD 0 0) (b.getD 1 0) s.toNat) (jacobi_n (val a) (val b) s.toNat))
       else none
   | "mpn_modexact_1_odd", [.vec u, .num d] =>
       if u.length ≥ 1 ∧ isUlong d ∧ d % 2 = 1 then some [natTok (modexact_1_odd u d.toNat)] else none
